@@ -54,22 +54,22 @@ def run_timing_tolerant(c, name, n, **kw):
 def recipe(c: Check):
     c.build(["Properties/C06.vo", "Corr/C06.vo"], harness=["c06"])
     c.obligations("C06")
-    st = c.run_driver("router", q(c.tier, 240, 6000), shards=q(c.tier, 8, 16))
+    st = c.run_driver("router", q(c.tier, 480, 6000), shards=q(c.tier, 8, 16))
     if st:
         need(c, "router", c.cov.get("coq_counters", {}).get("router", {}),
              ["NCONFLICT", "NREFUSED", "NEXACT", "NWILDCARD", "NCATCHALL", "NUSERSPECIFIC", "NUSERFALLBACK", "NLONGLOC"])
-    st = run_timing_tolerant(c, "router_http", q(c.tier, 60, 1500), shards=q(c.tier, 8, 16), timeout=1500)
+    st = run_timing_tolerant(c, "router_http", q(c.tier, 150, 1500), shards=q(c.tier, 8, 16), timeout=1500)
     if st:
         need(c, "router_http", c.cov.get("coq_counters", {}).get("router_http", {}),
              ["NREUSED", "NNOTFOUND", "NH2C", "NSTALE", "NCONNECT"])
-    st = c.run_driver("shared_port", q(c.tier, 12, 300), shards=q(c.tier, 4, 8), timeout=900)
+    st = c.run_driver("shared_port", q(c.tier, 20, 300), shards=q(c.tier, 4, 8), timeout=900)
     if st:
         need(c, "shared_port", c.cov.get("coq_counters", {}).get("shared_port", {}), ["NSYSREFUSED", "NSYSEXACT", "NSYSWILDCARD"])
     # routes registered through server/group/http.go: the model reproduces a genuine defect
     # (theorem C06_group_reregistered_route_reaches_old_owner_refuted); the driver replays the witness
     # on the real code.  M compares model and implementation only; NGROUPVIOL counts histories on which
     # the implementation violates the property.
-    st = run_timing_tolerant(c, "group", q(c.tier, 30, 600), shards=q(c.tier, 4, 8), timeout=900)
+    st = run_timing_tolerant(c, "group", q(c.tier, 60, 600), shards=q(c.tier, 4, 8), timeout=900)
     if st:
         nv = c.cov.get("coq_counters", {}).get("group", {}).get("NGROUPVIOL", 0)
         c.cov["group_route_finding_reproduced"] = nv
